@@ -28,6 +28,21 @@ def gotest(name, consts=(), **kw):
     return r
 
 
+def _nested_consts(node_ids, num_ops):
+    """walk constants of NestedCRDTImpl: a grow-only counter. The operator-valued CONSTANTs (COMBINE_FN, UPDATE_FN, VIEW_FN)
+    are given as finite function tables over argument tuples (Walk.v cenv applies a table to <<args>>)."""
+    top = len(node_ids) * num_ops + 2
+    res = [max(node_ids) + n for n in node_ids]
+    tab = lambda rows: "mkfun [%s]" % "; ".join("(VTup [%s], VNum %d)" % ("; ".join("VNum %d" % a for a in args), v) for args, v in rows)
+    return [("BUFFER_SIZE", "VNum 2"), ("ZERO_VALUE", "VNum 0"), ("NUM_OPS", "VNum %d" % num_ops),
+            ("NODE_IDS", "VSet [%s]" % "; ".join("VNum %d" % n for n in node_ids)), ("EMPTY_CELL", "VStr \"empty\""),
+            ("READ_REQ", "VNum 1"), ("WRITE_REQ", "VNum 2"), ("ABORT_REQ", "VNum 3"), ("PRECOMMIT_REQ", "VNum 4"), ("COMMIT_REQ", "VNum 5"),
+            ("READ_ACK", "VNum 6"), ("WRITE_ACK", "VNum 7"), ("ABORT_ACK", "VNum 8"), ("PRECOMMIT_ACK", "VNum 9"), ("COMMIT_ACK", "VNum 10"),
+            ("COMBINE_FN", tab([((a, b), max(a, b)) for a in range(top) for b in range(top)])),
+            ("UPDATE_FN", tab([((r, a, v), a + v) for r in res for a in range(top) for v in (1, 2)])),
+            ("VIEW_FN", tab([((a,), a) for a in range(top)]))]
+
+
 SYSTEMS = [
     {"name": "locksvc", "go": "systems/locksvc/locksvc.go", "tla": "systems/locksvc/locksvc.tla",
      "constants": [("NumClients", "VNum 3")]},
@@ -48,7 +63,8 @@ SYSTEMS = [
      "constants": [("NumNodes", "VNum 2"), ("ElemSet", "VSet [VNum 0; VNum 1; VNum 2; VNum 3]"), ("BenchNumRounds", "VNum 2")],
      "env_processes": ["UpdateCRDT"], "unused_archetypes": ["ANode"]},
     {"name": "nestedcrdtimpl", "go": "systems/nestedcrdtimpl/NestedCRDTImpl.go", "tla": "systems/nestedcrdtimpl/NestedCRDTImpl.tla",
-     "constants": [], "env_processes": ["Node"], "unused_archetypes": ["ATestRig", "ATestBench"]},
+     "constants": _nested_consts([1, 2], 3), "alt_constants": [_nested_consts([1], 4)],
+     "env_processes": ["Node"], "unused_archetypes": ["ATestRig", "ATestBench"]},
     {"name": "pbkvs", "go": "systems/pbkvs/pbkvs.go", "tla": "systems/pbkvs/pbkvs.tla",
      "constants": [("NUM_REPLICAS", "VNum 2"), ("NUM_CLIENTS", "VNum 1"), ("EXPLORE_FAIL", "VBool false"), ("DEBUG", "VBool false")],
      "alt_constants": [[("NUM_REPLICAS", "VNum 2"), ("NUM_CLIENTS", "VNum 1"), ("EXPLORE_FAIL", "VBool true"), ("DEBUG", "VBool true")]]},
